@@ -98,8 +98,10 @@ def get_eof_2qubit(rho:np.ndarray):
     if tmp0==0:
         ret = 0
     else:
-        tmp1 = (1 + np.sqrt(1-tmp0*tmp0))/2
-        ret = -tmp1*np.log(tmp1) - (1-tmp1)*np.log(1-tmp1)
+        tmp1 = (1 + np.sqrt(max(0, 1-tmp0*tmp0)))/2
+        tmp2 = 1 - tmp1
+        # x*log(x)=0 at x=0, which happens for concurrence below sqrt(machine epsilon)
+        ret = -tmp1*np.log(tmp1) - (tmp2*np.log(tmp2) if tmp2>0 else 0)
     return ret
 
 
